@@ -61,6 +61,18 @@ def configs(tier):
     for item, e in zip([(1, 0, 0), (1, 1, 1), (0, 0, 0)], EX):
         cfgs.append(S.Transform(depth=1, W=2, fail_item=item, fail_exc=e))
     # abrupt death of a worker (SIGKILL / OOM killer) while it handles an item
+    # EVERY item fails (a callback that cannot work at all), with more items than the bounded work queue holds: all
+    # workers are gone while the dispatcher still has items to hand out; with a pipe that holds a single item the
+    # dispatcher's flush of the queue is what has nobody left to read it
+    dv = 3 if tier == "quick" else None
+    cfgs.append(S.VisitLeaves(kind="generic", depth=2, W=2, fail_item="all", max_deviations=dv))
+    cfgs.append(S.VisitLeaves(kind="generic", depth=1, W=2, fail_item="all", fail_exc="oserror"))
+    cfgs.append(S.VisitLeaves(kind="generic", depth=1, W=2, fail_item="all", pipe_capacity=1))
+    cfgs.append(S.MultiTan(nimg=7, W=2, fail_item="all", max_deviations=dv))
+    cfgs.append(S.MultiTan(nimg=3, W=2, fail_item="all", pipe_capacity=1, fail_exc="valueerror"))
+    cfgs.append(S.MultiWcs(nimg=6, W=2, fail_item="all", max_deviations=dv))
+    cfgs.append(S.Transform(depth=3, W=2, fail_item="all", max_deviations=dv))
+    cfgs.append(S.Walk(kind="generic", depth=2, W=2, fail_item="all", max_deviations=dv))
     # an error object that cannot be pickled (a class local to the callback's module function, holding a lock)
     cfgs.append(S.VisitLeaves(kind="generic", depth=1, W=2, fail_item=(1, 0, 1), fail_exc="unpicklable"))
     cfgs.append(S.Walk(kind="filtered", depth=2, W=2, accepted=WALK3, fail_item=(1, 1, 1), fail_exc="unpicklable"))
@@ -170,12 +182,13 @@ def _serial_entry(h):
         root = tempfile.mkdtemp(prefix="verif-c19s-", dir=stages.scratch_root())
         try:
             imgs = stages.tan_images(h.nimg)
-            k = h.fail_item[0]
+            ks = list(range(h.nimg)) if h.fail_item == "all" else [h.fail_item[0]]
             pio = PyramidIO(root, default_format="fits")
             if isinstance(h, stages.MultiTan):
                 from toasty.multi_tan import MultiTanProcessor
 
-                imgs[k].__class__ = stages.failing_image_class(h.fail_exc)
+                for k in ks:
+                    imgs[k].__class__ = stages.failing_image_class(h.fail_exc)
                 proc = MultiTanProcessor(stages.ListCollection(imgs))
                 proc.compute_global_pixelization(Builder(pio))
                 proc.tile(pio, parallel=1)
@@ -184,7 +197,8 @@ def _serial_entry(h):
 
                 for i, im in enumerate(imgs):
                     im.asarray()[...] = float(i + 1)
-                imgs[k].asarray()[...] = {"runtime": -1.0, "oserror": -2.0, "valueerror": -3.0}[h.fail_exc]
+                for k in ks:
+                    imgs[k].asarray()[...] = {"runtime": -1.0, "oserror": -2.0, "valueerror": -3.0}[h.fail_exc]
                 proc = MultiWcsProcessor(stages.ListCollection(imgs))
                 proc.compute_global_pixelization(Builder(pio))
                 proc.tile(pio, stages._fake_reproject, parallel=1)
